@@ -36,6 +36,22 @@
 (*             in units of the smallest product); in float64 they always   *)
 (*             are.  So the allowance of the narrow instance applies.      *)
 (*                                                                         *)
+(*  "hist"     CALL HISTORIES of one aggregator object.  An aggregator is a *)
+(*             function of its argument: the statement's two clauses are   *)
+(*             about the same configured object, used on all-zero matrices *)
+(*             and on regular ones in whatever order, and any finite       *)
+(*             matrix (e.g. one with a single all-zero row, outside the    *)
+(*             regular clause, hence unjudged) may come in between.  A     *)
+(*             history is a word over {reg, zero, zrow}: "reg" = the next  *)
+(*             instance of the exact families with the given shape,        *)
+(*             "zero" = the all-zero matrix of that shape, "zrow" = the    *)
+(*             previous regular matrix with one row replaced by zeros.     *)
+(*             HistExpected: what is demanded at step k depends on step k  *)
+(*             alone (exact value of that instance | zero vector | nothing *)
+(*             ), never on the prefix.  The harness runs the words through *)
+(*             ONE object per aggregator configuration and ONE tensor      *)
+(*             buffer per shape, refilled in place between the calls.      *)
+(*                                                                         *)
 (* TLC checks on every instance that the exported value satisfies the      *)
 (* defining equalities of the statement (weights sum to one and equal      *)
 (* projections; cosines proportional to the preference vector and          *)
@@ -264,12 +280,27 @@ WideReps(m) == IF m = 2 THEN WideReps2 ELSE WideReps3
 WideAvail(n) == IF Level >= 2 THEN (IF n = 5 THEN 4 ELSE 5) ELSE (IF n = 5 THEN 3 ELSE 4)
 
 -----------------------------------------------------------------------------
+(* Family "hist": words of calls made on one aggregator object                                  *)
+
+HistKinds == {"reg", "zero", "zrow"}
+HistLen   == IF Level >= 2 THEN 4 ELSE 3
+\* every word that ends with a judged regular call preceded by at least one call of another kind
+HistWords == UNION {{w \in [1..l -> HistKinds] : w[l] = "reg" /\ \E i \in 1..(l - 1) : w[i] # "reg"} : l \in 2..HistLen}
+\* what the statement demands of the call at position k of a word: a function of that call alone
+HistExpected(w, k) == CASE w[k] = "reg"  -> "exact value of the instance (PythScenario / AlignedScenario)"
+                        [] w[k] = "zero" -> "zero vector"
+                        [] OTHER         -> "unjudged"
+HistOK(w) == /\ HistExpected(w, Len(w)) # "unjudged"
+             /\ \A k \in 1..Len(w) : \A v \in HistWords :        \* prefix independence
+                   (k <= Len(v) /\ v[k] = w[k]) => HistExpected(v, k) = HistExpected(w, k)
+
+-----------------------------------------------------------------------------
 (* Enumeration as a state machine (one state per instance, so that the workers share the work) *)
 
 VARIABLES fam, inst
 vars == <<fam, inst>>
 
-Init == fam \in {"pyth", "aligned", "zero", "wide"} /\ inst = <<"none">>
+Init == fam \in {"pyth", "aligned", "zero", "wide", "hist"} /\ inst = <<"none">>
 
 \* pyth: choose n, then the smallest row index, then the remaining rows
 PickPyth ==
@@ -302,7 +333,10 @@ PickWide ==
               /\ Cardinality(T) >= 2 /\ Cardinality(T) <= 3 /\ Cardinality(T) <= n
               /\ inst' = <<"wide_pyth", PythJ(<<n, T>>), inst[2]>>
     /\ UNCHANGED fam
-Next == PickPyth \/ PickAligned \/ PickZero \/ PickWide
+PickHist == /\ fam = "hist" /\ inst = <<"none">>
+            /\ \E w \in HistWords : inst' = <<"hist", w>>
+            /\ UNCHANGED fam
+Next == PickPyth \/ PickAligned \/ PickZero \/ PickWide \/ PickHist
 Spec == Init /\ [][Next]_vars
 
 \* ---- export (the exported record is what the defining equalities are checked on)
@@ -344,6 +378,9 @@ Export ==
                                   PythChecked(inst[2], sc) /\ PrintT(<<"SCN", ToJson(sc)>>)
       [] inst[1] = "aligned" -> PrintT(<<"SCN", ToJson(AlignedScenario(inst[2], inst[3], inst[4]))>>)
       [] inst[1] = "zero"    -> PrintT(<<"SCN", ToJson([fam |-> "zero", m |-> inst[2], n |-> inst[3]])>>)
+      [] inst[1] = "hist"    -> HistOK(inst[2]) /\
+                                PrintT(<<"SCN", ToJson([fam |-> "hist", word |-> inst[2],
+                                                        expect |-> [k \in 1..Len(inst[2]) |-> HistExpected(inst[2], k)]])>>)
       [] inst[1] = "wide_aligned" ->
             LET Jn == MatMat(inst[2], inst[3].num, inst[3].n)  k == inst[5] IN
             PrintT(<<"SCN", ToJson([fam |-> "wide", kind |-> "aligned", k |-> k, rep |-> Pow(4, k),
